@@ -579,12 +579,16 @@ const BENIGN_O: &str = "http://k.example/o";
 
 /// `PanicSite::sig` with the source path made relative to the repository root wherever the tree is
 /// checked out (scratch worktrees of tools/mutant_run.sh live under /tmp/.../repo/).
-fn panic_sig(site: &PanicSite) -> String {
+///
+/// Several places of one source file fail with the same message kind (two different slicing bugs of
+/// parse_turtle both say "begin > end"), so the class of the reduced input that provokes the panic is
+/// part of the signature: `panic@<file>:<message kind>|<format>.<class>`.
+fn panic_sig(site: &PanicSite, fmt: Fmt, class: &str) -> String {
     let mut s = site.clone();
     if let Some(i) = s.file.rfind("/repo/") {
         s.file = s.file[i + 6..].to_string();
     }
-    s.sig()
+    format!("{}|{}.{}", s.sig(), fmt.tag(), class)
 }
 
 struct Acc {
@@ -643,7 +647,7 @@ fn attribute_literal(acc: &mut Acc, fmt: Fmt, ctx: Option<(&RtTerm, &str, &Optio
         if !t.passed() {
             any = true;
             match &t {
-                Trip::Panic { site, .. } => acc.push(panic_sig(site), format!("[{}] literal reduced to its `{}` feature: {}", fmt.tag(), name, describe(fmt, &ds, &t))),
+                Trip::Panic { site, .. } => acc.push(panic_sig(site, fmt, &format!("literal_{name}")), format!("[{}] literal reduced to its `{}` feature: {}", fmt.tag(), name, describe(fmt, &ds, &t))),
                 _ => acc.push(format!("c14.{}.literal_{}", fmt.tag(), name), describe(fmt, &ds, &t)),
             }
             continue;
@@ -654,7 +658,7 @@ fn attribute_literal(acc: &mut Acc, fmt: Fmt, ctx: Option<(&RtTerm, &str, &Optio
             if !t.passed() {
                 any = true;
                 match &t {
-                    Trip::Panic { site, .. } => acc.push(panic_sig(site), format!("[{}] literal reduced to its `{}` feature: {}", fmt.tag(), name, describe(fmt, &ds, &t))),
+                    Trip::Panic { site, .. } => acc.push(panic_sig(site, fmt, &format!("with_subject_{}.literal_{}", s.kind(), name)), format!("[{}] literal reduced to its `{}` feature: {}", fmt.tag(), name, describe(fmt, &ds, &t))),
                     _ => acc.push(format!("c14.{}.with_subject_{}.literal_{}", fmt.tag(), s.kind(), name), describe(fmt, &ds, &t)),
                 }
             }
@@ -684,7 +688,7 @@ fn attribute_quad(acc: &mut Acc, fmt: Fmt, q: &RtQuad, whole: &Trip) {
         if !t.passed() {
             blamed = true;
             match &t {
-                Trip::Panic { site, .. } => acc.push(panic_sig(site), format!("[{}] {}", fmt.tag(), describe(fmt, &ds, &t))),
+                Trip::Panic { site, .. } => acc.push(panic_sig(site, fmt, &format!("subject_{}", q.s.kind())), format!("[{}] {}", fmt.tag(), describe(fmt, &ds, &t))),
                 _ => acc.push(format!("c14.{}.subject_{}", fmt.tag(), q.s.kind()), describe(fmt, &ds, &t)),
             }
         }
@@ -696,7 +700,7 @@ fn attribute_quad(acc: &mut Acc, fmt: Fmt, q: &RtQuad, whole: &Trip) {
         if !t.passed() {
             blamed = true;
             match &t {
-                Trip::Panic { site, .. } => acc.push(panic_sig(site), format!("[{}] {}", fmt.tag(), describe(fmt, &ds, &t))),
+                Trip::Panic { site, .. } => acc.push(panic_sig(site, fmt, &format!("predicate_iri_{}", iri_scheme(&q.p))), format!("[{}] {}", fmt.tag(), describe(fmt, &ds, &t))),
                 _ => acc.push(format!("c14.{}.predicate_iri_{}", fmt.tag(), iri_scheme(&q.p)), describe(fmt, &ds, &t)),
             }
         }
@@ -710,7 +714,7 @@ fn attribute_quad(acc: &mut Acc, fmt: Fmt, q: &RtQuad, whole: &Trip) {
             match &q.o {
                 RtTerm::Lit(l) => attribute_literal(acc, fmt, None, l, &t, &ds),
                 other => match &t {
-                    Trip::Panic { site, .. } => acc.push(panic_sig(site), format!("[{}] {}", fmt.tag(), describe(fmt, &ds, &t))),
+                    Trip::Panic { site, .. } => acc.push(panic_sig(site, fmt, &format!("object_{}", other.kind())), format!("[{}] {}", fmt.tag(), describe(fmt, &ds, &t))),
                     _ => acc.push(format!("c14.{}.object_{}", fmt.tag(), other.kind()), describe(fmt, &ds, &t)),
                 },
             }
@@ -723,7 +727,7 @@ fn attribute_quad(acc: &mut Acc, fmt: Fmt, q: &RtQuad, whole: &Trip) {
         if !t.passed() {
             blamed = true;
             match &t {
-                Trip::Panic { site, .. } => acc.push(panic_sig(site), format!("[{}] {}", fmt.tag(), describe(fmt, &ds, &t))),
+                Trip::Panic { site, .. } => acc.push(panic_sig(site, fmt, &format!("graph_iri_{}", iri_scheme(g))), format!("[{}] {}", fmt.tag(), describe(fmt, &ds, &t))),
                 _ => acc.push(format!("c14.{}.graph_iri_{}", fmt.tag(), iri_scheme(g)), describe(fmt, &ds, &t)),
             }
         }
@@ -731,7 +735,7 @@ fn attribute_quad(acc: &mut Acc, fmt: Fmt, q: &RtQuad, whole: &Trip) {
     if !blamed {
         // no term fails next to benign companions: the combination does
         match (&q.o, whole) {
-            (_, Trip::Panic { site, .. }) => acc.push(panic_sig(site), format!("[{}] {}", fmt.tag(), describe(fmt, &whole_ds, whole))),
+            (_, Trip::Panic { site, .. }) => acc.push(panic_sig(site, fmt, &format!("quad_combination.{}.{}", q.s.kind(), q.o.kind())), format!("[{}] {}", fmt.tag(), describe(fmt, &whole_ds, whole))),
             (RtTerm::Lit(l), _) => attribute_literal(acc, fmt, Some((&q.s, &q.p, &q.g)), l, whole, &whole_ds),
             _ => acc.push(format!("c14.{}.quad_combination.{}.{}", fmt.tag(), q.s.kind(), q.o.kind()), describe(fmt, &whole_ds, whole)),
         }
@@ -742,7 +746,7 @@ fn attribute_quad(acc: &mut Acc, fmt: Fmt, q: &RtQuad, whole: &Trip) {
 fn attribute_interaction(acc: &mut Acc, fmt: Fmt, clean: &[RtQuad], whole: &Trip) {
     let whole_ds = RtDataset { quads: clean.to_vec() };
     if let Trip::Panic { site, .. } = whole {
-        acc.push(panic_sig(site), format!("[{}] {}", fmt.tag(), describe(fmt, &whole_ds, whole)));
+        acc.push(panic_sig(site, fmt, "interaction"), format!("[{}] {}", fmt.tag(), describe(fmt, &whole_ds, whole)));
         return;
     }
     let mut by_subject: BTreeMap<(Option<String>, String), Vec<RtQuad>> = BTreeMap::new();
@@ -834,7 +838,7 @@ fn attribute(acc: &mut Acc, fmt: Fmt, ds: &RtDataset, whole: &Trip) {
         // nothing in scope fails on its own: quads outside the format's scope (named graphs for
         // N-Triples/Turtle) interfere, or the behaviour is not reproducible
         match whole {
-            Trip::Panic { site, .. } => acc.push(panic_sig(site), format!("[{}] {}", fmt.tag(), describe(fmt, ds, whole))),
+            Trip::Panic { site, .. } => acc.push(panic_sig(site, fmt, "dataset"), format!("[{}] {}", fmt.tag(), describe(fmt, ds, whole))),
             _ => {
                 let oos = ds.quads.iter().any(|q| !fmt.in_scope(q));
                 let sig = if oos { format!("c14.{}.out_of_scope_quads_interfere", fmt.tag()) } else { format!("c14.{}.unattributed", fmt.tag()) };
